@@ -31,7 +31,8 @@ ASSUMPTIONS = [
 ]
 
 SCRATCH_ROOT = '/dev/shm' if os.path.isdir('/dev/shm') else tempfile.gettempdir()
-COMPONENTS = ['song.mp3', '..', '.', '', '@@abcde', 'C:', 'dir', 'é片.mp3', 'a' * 255, 'song (1).mp3', 'a+b [x].mp3']
+LONG = 'b' * 251 + '.mp3'       # 255 characters with an extension: numbering it exceeds the usual name limit
+COMPONENTS = ['song.mp3', '..', '.', '', '@@abcde', 'C:', 'dir', 'é片.mp3', 'a' * 255, 'song (1).mp3', 'a+b [x].mp3', LONG]
 SEPS = ['\\', '/', '\\\\', '/\\']
 STRATS = {'D': DefaultNamingStrategy, 'K': KeepDirectoryStrategy, 'N': NumberDuplicateStrategy}
 CHAINS = [c for n in (1, 2, 3) for c in itertools.permutations('DKN', n)]
@@ -39,6 +40,7 @@ CONTENTS = {
     'empty': [], 'one': ['song.mp3'], 'two': ['song.mp3', 'song (1).mp3'], 'gap': ['song (2).mp3'],
     'sub': ['dir/song.mp3'], 'dirnamed': ['song.mp3/'],
     'meta': ['a+b [x].mp3', 'a+b [x] (1).mp3', 'song (1).mp3', 'song (1) (1).mp3'],
+    'long': ['a' * 255, LONG, 'dir/' + LONG],
 }
 
 
@@ -75,12 +77,12 @@ def remote_paths(maxlen):
                         yield p
 
 
-def check_choice(remote, chain, content, dl_dir, result, add):
+def check_choice(remote, chain, content, dl_dir, result, add, via='chain_strategies'):
     path, filename = result
     full = os.path.join(path, filename)
     real_dl = os.path.realpath(dl_dir)
     real = os.path.realpath(full)
-    label = f"remote {remote[:60]!r} chain {''.join(chain)} content {content}"
+    label = f"{via}: remote {remote[:60]!r} chain {''.join(chain)} content {content}"
     if filename == '' and 'D' not in chain:
         # a chain without the default strategy never determines a file name: only containment is judged
         if not (os.path.realpath(path) + os.sep).startswith(real_dl + os.sep):
@@ -114,10 +116,27 @@ def run_inputs(part, parts, maxlen) -> dict:
     try:
         dirs = make_contents(base)
         chains = [(c, [STRATS[x]() for x in c]) for c in CHAINS]
+        # the manager's entry point (what a download actually uses), default chain of the library
+        from aioslsk.shares.manager import SharesManager
+        from aioslsk.events import EventBus
+        from ..common import make_settings
+        msettings = make_settings(_copy=True)
+        manager = SharesManager(msettings, EventBus(), None)
+        mchain = tuple('DKN'[[DefaultNamingStrategy, KeepDirectoryStrategy, NumberDuplicateStrategy].index(type(x))]
+                       for x in manager.naming_strategies)
         for i, remote in enumerate(remote_paths(maxlen)):
             if i % parts != part:
                 continue
             for content, dl_dir in dirs.items():
+                msettings.shares.download = dl_dir
+                n += 1
+                try:
+                    mresult = manager.calculate_download_path(remote)
+                except Exception:
+                    rejected += 1
+                else:
+                    outcomes.add(hash((remote, 'manager', content)))
+                    check_choice(remote, mchain, content, dl_dir, mresult, add, via='calculate_download_path')
                 for chain, strategies in chains:
                     n += 1
                     try:
